@@ -1,5 +1,8 @@
 // obs_inval: C27 (invalidation callbacks) and the hook-channel half of C26.
 //
+// Every kind runs with and without the client-side cache (ClientOption.DisableCache; without it the observer switches
+// CLIENT TRACKING ON by hand, as an application that only wants the notifications does).
+//
 // Kind "option": a RESP3 client with ClientOption.OnInvalidations.  Operations: cached reads, writes from another
 // connection (real invalidation pushes of the fake server), FLUSHALL (null push), multi-key pushes injected by the
 // server, ordinary commands in between; then Close or a server-side kill.  Ground truth = the invalidate pushes found
@@ -10,7 +13,8 @@
 // returns a new channel), invalidation pushes and messages in between, then release, Close or a kill.
 // Oracle: every returned channel is closed exactly once (a second close would panic the client), carries at most one
 // error and only when the connection failed; each hook set's invalidation callback saw exactly the pushes that
-// arrived while it was installed (+ nil if it was installed when the connection was lost); OnMessage likewise.
+// arrived while it was installed (+ nil if it was installed when the connection was lost) — checked directly against
+// the pushes the observer had the server send, op by op; OnMessage likewise (through the model).
 package main
 
 import (
@@ -40,9 +44,10 @@ type Op struct {
 }
 
 type Case struct {
-	Kind string `json:"kind"` // option | hooks
-	Ops  []Op   `json:"ops"`
-	End  string `json:"end"` // close | kill | release
+	Kind    string `json:"kind"` // option | hooks
+	Ops     []Op   `json:"ops"`
+	End     string `json:"end"`               // close | kill | release
+	NoCache bool   `json:"nocache,omitempty"` // ClientOption.DisableCache: no client-side cache, the callbacks work all the same
 }
 
 var keys = []string{"k1", "k2", "k3", "k4"}
@@ -50,6 +55,7 @@ var keys = []string{"k1", "k2", "k3", "k4"}
 func genCase(r *gen.Rand, i int) any {
 	c := Case{Kind: gen.Pick(r, []string{"option", "option", "hooks"})}
 	n := 2 + r.Intn(14)
+	c.NoCache = r.Chance(1, 2)
 	if c.Kind == "option" {
 		c.End = gen.Pick(r, []string{"close", "kill"})
 		for j := 0; j < n; j++ {
@@ -90,7 +96,7 @@ func genCase(r *gen.Rand, i int) any {
 					ks = append(ks, k)
 				}
 			}
-			if r.Chance(1, 6) {
+			if r.Chance(1, 6) || len(ks) == 0 {
 				ks = nil // flush
 			}
 			c.Ops = append(c.Ops, Op{T: "inject", Keys: ks})
@@ -160,13 +166,16 @@ const waitMax = 6 * time.Second // only quoted in messages: the waits use psx.Aw
 
 func runOption(c Case) (res obs.Result) {
 	res.Kind = "option-" + c.End
+	if c.NoCache {
+		res.Kind += "-nocache"
+	}
 	s := fakeredis.New()
 	var mu sync.Mutex
 	var cb []invalRec
 	var tee *psx.TeeConn
 	dials := 0
 	cl, err := rueidis.NewClient(rueidis.ClientOption{InitAddress: []string{"127.0.0.1:6379"}, ForceSingleClient: true, DisableRetry: true,
-		PipelineMultiplex: -1, ReadBufferEachConn: 4096, WriteBufferEachConn: 4096, RingScaleEachConn: 6,
+		DisableCache: c.NoCache, PipelineMultiplex: -1, ReadBufferEachConn: 4096, WriteBufferEachConn: 4096, RingScaleEachConn: 6,
 		DialCtxFn: func(ctx context.Context, dst string, d *net.Dialer, t *tls.Config) (net.Conn, error) {
 			nc, err := s.Dial(ctx, dst, d, t)
 			if err != nil {
@@ -192,6 +201,13 @@ func runOption(c Case) (res obs.Result) {
 	other, _ := rueidis.NewClient(rueidis.ClientOption{InitAddress: []string{"127.0.0.1:6379"}, DialCtxFn: s.Dial, ForceSingleClient: true, DisableCache: true})
 	defer other.Close()
 	ctx := context.Background()
+	if c.NoCache {
+		// no cache, no tracking by the library: the application asks for the notifications itself
+		if err := cl.Do(ctx, cl.B().ClientTracking().On().Build()).Error(); err != nil {
+			res.Oracle = "harness: CLIENT TRACKING ON: " + err.Error()
+			return
+		}
+	}
 	vno := 0
 	for _, op := range c.Ops {
 		switch op.T {
@@ -286,9 +302,12 @@ type hookRec struct {
 
 func runHooks(c Case) (res obs.Result) {
 	res.Kind = "hooks-" + c.End
+	if c.NoCache {
+		res.Kind += "-nocache"
+	}
 	s := fakeredis.New()
 	cl, err := rueidis.NewClient(rueidis.ClientOption{InitAddress: []string{"127.0.0.1:6379"}, DialCtxFn: s.Dial, ForceSingleClient: true,
-		DisableRetry: true, DisableCache: true, PipelineMultiplex: -1, ReadBufferEachConn: 4096, WriteBufferEachConn: 4096, RingScaleEachConn: 6})
+		DisableRetry: true, DisableCache: c.NoCache, PipelineMultiplex: -1, ReadBufferEachConn: 4096, WriteBufferEachConn: 4096, RingScaleEachConn: 6})
 	if err != nil {
 		res.Oracle = "harness: " + err.Error()
 		return
@@ -456,6 +475,48 @@ func runHooks(c Case) (res obs.Result) {
 			bad = append(bad, fmt.Sprintf("hook set %d was released in good order but its channel carried an error", h.id))
 		}
 	}
+	// direct oracle on the invalidation logs: every push was sent while exactly one hook set (or none) was installed —
+	// each operation is followed by a round trip — so each hook set with a callback saw exactly the pushes sent while it
+	// was installed, in order, then nil if it was the one installed when the connection was lost
+	wantInv := map[int][]invalRec{}
+	curID, curInv, ids := 0, false, 0
+	for _, op := range c.Ops {
+		switch op.T {
+		case "sethooks", "setinval":
+			ids++
+			curID, curInv = ids, op.T == "setinval"
+		case "clear":
+			curID = 0
+		case "inject":
+			if curID != 0 && curInv {
+				wantInv[curID] = append(wantInv[curID], invalRec{keys: op.Keys, null: op.Keys == nil})
+			}
+		}
+	}
+	lossNil := 0
+	if (c.End == "kill" || (c.End == "close" && cleanupWon)) && curID != 0 && curInv {
+		wantInv[curID] = append(wantInv[curID], invalRec{null: true})
+		lossNil = curID
+	}
+	invalBad := false
+	for _, h := range hooks {
+		w := wantInv[h.id]
+		same := len(w) == len(h.inval)
+		for i := 0; same && i < len(w); i++ {
+			same = w[i].eq(h.inval[i])
+		}
+		if !same && len(bad) == 0 {
+			invalBad = true
+		}
+		if !same {
+			tail := ""
+			if lossNil == h.id {
+				tail = ", the last nil being the one due for the lost connection (this hook set was installed then)"
+			}
+			bad = append(bad, fmt.Sprintf("the invalidation callback of hook set %d (of %d; end = %s, cache disabled = %v) saw %s, expected %s: the pushes the server sent while it was installed%s",
+				h.id, len(hooks), c.End, c.NoCache, invalLog(h.inval), invalLog(w), tail))
+		}
+	}
 	seen := make([]string, 0, len(hooks))
 	tot := 0
 	for _, h := range hooks {
@@ -476,8 +537,23 @@ func runHooks(c Case) (res obs.Result) {
 	res.Nontrivial = len(hooks) > 0
 	res.Obs = map[string]any{"hook_sets": len(hooks), "callbacks": tot}
 	res.Site, res.Class = "pipe.go:SetPubSubHooks", "hook-channel"
+	if invalBad {
+		res.Site, res.Class = "pipe.go:handlePush", "invalidation-log"
+	}
 	res.Oracle = strings.Join(bad, "; ")
 	return
+}
+
+func invalLog(l []invalRec) string {
+	parts := make([]string, len(l))
+	for i, r := range l {
+		if r.null {
+			parts[i] = "nil"
+		} else {
+			parts[i] = "[" + strings.Join(r.keys, " ") + "]"
+		}
+	}
+	return "<" + strings.Join(parts, ", ") + ">"
 }
 
 var panics int64
